@@ -217,7 +217,8 @@ def observe_edfa(e, added):
     return {'eff': float(e.effective_gain), 'pin_db': float(e.pin_db), 'nf': [float(x) for x in e.nf],
             'gprofile': [float(x) for x in e.gprofile], 'added_ase': added,
             'f_min': e.params.f_min, 'f_max': e.params.f_max, 'p_max': e.params.p_max,
-            'gain_target': e.operational.gain_target, 'out_voa': e.out_voa, 'in_voa': e.in_voa}
+            'gain_target': e.operational.gain_target, 'out_voa': e.out_voa, 'in_voa': e.in_voa,
+            'nf_ripple': [float(x) for x in e.interpol_nf_ripple], '_params': e.params}
 
 
 def drive(case):
@@ -309,6 +310,20 @@ def oracle(case, rec):
         # never above p_max (the signal part; the freshly generated ASE is accounted separately below)
         if pin_db + gtot > o['p_max'] + (1e-9 if flat else 0.3):
             fails.append(('above_pmax', f"total output {pin_db + gtot} dBm > p_max {o['p_max']}"))
+        # NF follows the configured model (reference formulas of the documentation), plus the NF ripple
+        slot_width = sel[1][0] - sel[0][0] if len(sel) > 1 else sel[0][1]
+        try:
+            ref = ref_amp_nf(o['_params'], o['eff'], pin_db, len(sel), slot_width)
+        except Exception as ex:  # noqa
+            ref = None
+            fails.append(('nf_reference', f'reference NF not computable: {type(ex).__name__}: {ex}'))
+        if ref is not None:
+            for i, (nf, rp) in enumerate(zip(o['nf'], o['nf_ripple'])):
+                exp = ref + rp
+                if not (nf == exp or abs(nf - exp) <= 1e-9 * max(1.0, abs(exp))):
+                    fails.append(('nf_model', f"{o['_params'].type_def}: NF of channel {i} at gain {o['eff']:.4f} is {nf!r}, "
+                                  f'model of the documentation gives {exp!r}'))
+                    break
         # ASE referred to the input: h f B NF
         for i, (c, nf, ad) in enumerate(zip(sel, o['nf'], o['added_ase'])):
             exp = H * c[0] * c[2] * (10 ** (nf / 10) if nf != -math.inf else 0.0)
@@ -326,6 +341,51 @@ def oracle(case, rec):
                 fails.append(('component_gain', f'channel {i}: signal/ASE/NLI not multiplied by the channel gain'))
                 break
     return fails
+
+
+def ref_stage_nf(type_def, nf_model, fit, gain_min, gain_flatmax, g, pin50):
+    """NF [dB] of one amplifier stage at gain g, from docs/amplifier_models_description.rst (plain Python):
+      below gain_min the input is padded and NF += gain_min - g;
+      variable_gain   two coils with a mid-stage VOA: NF = nf1 (+) nf2 / (g - delta_p - gain decrease)   [linear sum]
+      fixed_gain      NF = nf0
+      openroadm       incremental OSNR = a Pin^3 + b Pin^2 + c Pin + d with Pin per 50 GHz; NF = Pin + 58 - OSNR
+      openroadm_preamp  OSNR = min((4 Pin + 275) / 7, 33)
+      openroadm_booster noiseless
+      advanced_model  NF = polynomial(gain - gain_max), gain - gain_max <= 0"""
+    pad = max(gain_min - g, 0.0)
+    ge = g + pad
+    dec_ = max(gain_flatmax - ge, 0.0)
+    if type_def == 'variable_gain':
+        lin = 10 ** (nf_model.nf1 / 10) + 10 ** (nf_model.nf2 / 10) / 10 ** ((ge - nf_model.delta_p - dec_) / 10)
+        nf = 10 * math.log10(lin)
+    elif type_def == 'fixed_gain':
+        nf = nf_model.nf0
+    elif type_def == 'openroadm':
+        a, b, c, d = nf_model.nf_coef
+        nf = pin50 + 58 - (a * pin50 ** 3 + b * pin50 ** 2 + c * pin50 + d)
+    elif type_def == 'openroadm_preamp':
+        nf = pin50 + 58 - min((4 * pin50 + 275) / 7, 33)
+    elif type_def == 'openroadm_booster':
+        return -math.inf
+    elif type_def == 'advanced_model':
+        x = -dec_
+        nf = sum(co * x ** k for k, co in enumerate(reversed(list(fit))))
+    else:
+        raise ValueError(type_def)
+    return nf + pad
+
+
+def ref_amp_nf(p, eff, pin_db, nch, slot_width):
+    """average NF [dB] of the amplifier at effective gain eff; dual stage = Friis cascade, preamp at its maximum gain"""
+    pin50 = pin_db - 10 * math.log10(nch) + 10 * math.log10(50e9 / slot_width)
+    if p.type_def == 'dual_stage':
+        g1 = p.preamp_gain_flatmax
+        n1 = ref_stage_nf(p.preamp_type_def, p.preamp_nf_model, p.preamp_nf_fit_coeff, p.preamp_gain_min, g1, g1, pin50)
+        n2 = ref_stage_nf(p.booster_type_def, p.booster_nf_model, p.booster_nf_fit_coeff, p.booster_gain_min,
+                          p.booster_gain_flatmax, eff - g1, pin50)
+        lin = (10 ** (n1 / 10) if n1 != -math.inf else 0.0) + (10 ** (n2 / 10) if n2 != -math.inf else 0.0) / 10 ** (g1 / 10)
+        return 10 * math.log10(lin)
+    return ref_stage_nf(p.type_def, p.nf_model, p.nf_fit_coeff, p.gain_min, p.gain_flatmax, eff, pin50)
 
 
 def nf_oracle(amp, label):
